@@ -3,7 +3,7 @@
 (* Family) and, for each program, every sequence of start / stop / restart / run(ev) calls until the reachable    *)
 (* states are exhausted (guard/handler scripts are cyclic, so the state space of one program is finite).           *)
 EXTENDS Hfsm, SequencesExt
-CONSTANT Family      \* "flat2" | "flat3" | "nestq" | "nest" | "reent" | "reent_enter"
+CONSTANT Family      \* "flat2q" | "flat2" | "flat3" | "nestq" | "nest" | "reent" | "reent_enter"
 CONSTANT MaxDepth    \* 0 = until exhaustion, otherwise maximal number of calls
 
 VARIABLE depth
@@ -41,11 +41,12 @@ SeqsUpTo(X, n) == UNION {[1..k -> X] : k \in 0..n}
 
 (* ---- flat family: one machine, three states; the routes and handlers of state 1 are enumerated ---- *)
 FlatRouteChoices == {R(ev, to, gt, 1) : ev \in {0, 1, 2}, to \in {2, 0}, gt \in {0, 1}}
+FlatRouteChoicesQ == {R(ev, to, gt, 1) : ev \in {0, 1}, to \in {2, 0}, gt \in {0, 1}}
 FlatHandlers == { <<>>, <<Hd(1, <<-1, 3>>)>>, <<Hd(0, <<2, -1>>)>>, <<Hd(2, <<3>>), Hd(0, <<-1, 2>>)>> }
-Flat(n) == { Build(<< M(1, << S(1, 0, rs, hd),
+Flat(RouteSet, n) == { Build(<< M(1, << S(1, 0, rs, hd),
                               S(2, 0, <<R(1, 1, 0, 0), R(2, 3, 0, 1)>>, <<>>),
                               S(3, 0, <<R(0, 1, 2, 0), R(2, 0, 0, 0)>>, <<>>) >>) >>, <<>>, 2)
-             : rs \in SeqsUpTo(FlatRouteChoices, n), hd \in FlatHandlers }
+             : rs \in SeqsUpTo(RouteSet, n), hd \in FlatHandlers }
 
 (* ---- nested family: root (2 states) -> machine 2 (2 states) -> machine 3 (1 state + optional user terminal) ---- *)
 Menu(s, o) == { [rs |-> <<R(1, o, 0, 1)>>, hd |-> <<>>],
@@ -62,9 +63,9 @@ Nest3(a1, a2, b1, b2, c1, p1, p2, t, re) ==
   Build(<< M(1, << S(1, IF p1 = 1 THEN 2 ELSE 0, a1.rs, a1.hd), S(2, IF p1 = 2 THEN 2 ELSE 0, a2.rs, a2.hd) >>),
            M(1, << S(1, IF p2 = 1 THEN 3 ELSE 0, b1.rs, b1.hd), S(2, IF p2 = 2 THEN 3 ELSE 0, b2.rs, b2.hd) >> \o t),
            M(1, << S(1, 0, c1.rs, c1.hd) >> \o t) >>, re, 2)
-Nest(Mn(_, _), Lf, Ps) == { Nest3(a1, a2, b1, b2, c1, p1, p2, t, <<>>)
+Nest(Mn(_, _), Lf, Ps, Ts) == { Nest3(a1, a2, b1, b2, c1, p1, p2, t, <<>>)
                             : a1 \in Mn(1, 2), a2 \in Mn(2, 1), b1 \in Mn(1, 2), b2 \in Mn(2, 1), c1 \in Lf,
-                              p1 \in Ps, p2 \in Ps, t \in TermStates }
+                              p1 \in Ps, p2 \in Ps, t \in Ts }
 
 (* ---- re-entrant attempts: one fixed nested program, every callback kind tries every call on its own machine ---- *)
 ReBase(re) == Nest3([rs |-> <<R(1, 2, 1, 1), R(2, 0, 0, 1)>>, hd |-> <<Hd(2, <<-1, 2>>)>>],
@@ -81,15 +82,16 @@ ReSites == { [m |-> 1, k |-> "E", id |-> 1], [m |-> 1, k |-> "X", id |-> 1], [m 
 Reent(sites) == { ReBase(<< [m |-> x.m, k |-> x.k, id |-> x.id, c |-> c] >>) : x \in sites, c \in ReCalls }
 
 Programs ==
-  CASE Family = "flat2" -> Flat(2)
-    [] Family = "flat3" -> Flat(3)
-    [] Family = "nestq" -> Nest(MenuQ, {CHOOSE x \in Leaf : TRUE}, {1, 2})
-    [] Family = "nest"  -> Nest(Menu, Leaf, {1, 2})
+  CASE Family = "flat2q" -> Flat(FlatRouteChoicesQ, 2)
+    [] Family = "flat2" -> Flat(FlatRouteChoices, 2)
+    [] Family = "flat3" -> Flat(FlatRouteChoices, 3)
+    [] Family = "nestq" -> Nest(MenuQ, {CHOOSE x \in Leaf : TRUE}, {1, 2}, {x \in TermStates : x # <<>>})
+    [] Family = "nest"  -> Nest(Menu, Leaf, {1, 2}, TermStates)
     [] Family = "reent" -> Reent(ReSites)
     [] Family = "reent_enter" -> Reent({x \in ReSites : x.k = "E"})
 
-MCProgTab == SetToSeq({[p |-> x] : x \in Programs})
-MCInit == /\ \E i \in 1..Len(ProgTab) : InitWith(i)
+MCProgTab == SetToSeq(Programs)
+MCInit == /\ \E i \in 1..Len(MCProgTab) : InitWith(i, MCProgTab[i])
           /\ depth = 0
 Tick == (MaxDepth = 0 \/ depth < MaxDepth) /\ depth' = (IF MaxDepth = 0 THEN 0 ELSE depth + 1)
 MStart   == Start /\ Tick
